@@ -427,6 +427,12 @@ func init() {
 		"same token worlds plus direct donations to escrow accounts; after every block the queried total-escrow-for-denom equals the model's ledger of IBC escrows minus releases (refunds, unwinding receives) per denomination, is never negative and never exceeds the combined balance of the transfer escrow accounts. Non-trivial case = distinct escrow/release/donation shapes",
 		[]string{"xfer:", "return:", "refund:", "donate:"}, 96, 1400,
 		func(o *CoreOptions, r *rand.Rand, tier string) {
+			if r.Intn(4) == 0 {
+				// packet-forward worlds: the refund moves of failed forwards count too
+				forwardOptions(o, r)
+				o.WDonate = 4
+				return
+			}
 			tokenOptions(o, r)
 			o.WDonate = 8
 			genesisRestartTokens(o, r)
